@@ -168,7 +168,7 @@ def check(case):
 
 
 def parts(tier):
-    return [Part("queries", strategy=_case(), check=check, n={"quick": 960, "thorough": 20000})]
+    return [Part("queries", strategy=_case(), check=check, n={"quick": 960, "thorough": 80000})]
 
 
 MANIFEST = {
